@@ -284,12 +284,12 @@ func runC14(w *mon.W) {
 	os.MkdirAll(tmp, 0755)
 	defer os.RemoveAll(tmp)
 	var lens []int
-	for rep := 0; rep < w.Pick(6, 20); rep++ {
+	for rep := 0; rep < w.Pick(6, 60); rep++ {
 		for L := 1; L <= 300; L++ {
 			lens = append(lens, L)
 		}
 	}
-	nRand := w.Pick(4000, 60000)
+	nRand := w.Pick(4000, 300000)
 	for k := 0; k < len(lens)+nRand; k++ {
 		id := fmt.Sprintf("rec-%d", k)
 		if !w.Want(id, k) {
